@@ -36,7 +36,6 @@ import (
 	"github.com/ozontech/file.d/pipeline/doif"
 	_ "github.com/ozontech/file.d/plugin/action/discard"
 	"github.com/ozontech/file.d/plugin/input/fake"
-	"github.com/ozontech/file.d/plugin/output/devnull"
 	"github.com/ozontech/file.d/test"
 	"github.com/prometheus/client_golang/prometheus"
 	"go.uber.org/zap"
@@ -60,6 +59,7 @@ type c15pScenario struct {
 	Neg       bool         `json:"neg"`
 	WaitMs    int          `json:"wait_ms"`   // slack for "a time-out arrives once the stream is quiet"
 	Templates []string     `json:"templates"` // join_template only
+	Hold      int          `json:"hold"`      // the output reads an event only after that many later events arrived
 	Streams   []c15pStream `json:"streams"`
 }
 
@@ -81,7 +81,95 @@ type c15pOut struct {
 	K      string `json:"k"`
 	HasLog bool   `json:"has_log"`
 	IsStr  bool   `json:"is_str"`
-	Log    string `json:"log"`
+	Log    string `json:"log"`       // the text when the output LOOKED at the event (a few events after it arrived)
+	Early  string `json:"log_early"` // the text when the event arrived at the output
+}
+
+// an output that keeps the last `hold` events before it reads and commits them, as every batching output does
+type c15pHoldOut struct {
+	controller pipeline.OutputPluginController
+	rec        *c15pRec
+	hold       int
+	mu         sync.Mutex
+	queue      []*pipeline.Event
+	idx        []int
+	since      []time.Time
+	done       chan struct{}
+}
+
+// like a batcher's flush time-out: nothing stays unread (and uncommitted) for longer than maxAge
+func (o *c15pHoldOut) ager(maxAge time.Duration) {
+	for {
+		select {
+		case <-o.done:
+			return
+		case <-time.After(5 * time.Millisecond):
+		}
+		o.mu.Lock()
+		n := 0
+		for n < len(o.queue) && time.Since(o.since[n]) > maxAge {
+			n++
+		}
+		evs, idx := o.queue[:n:n], o.idx[:n:n]
+		o.queue, o.idx, o.since = o.queue[n:], o.idx[n:], o.since[n:]
+		o.mu.Unlock()
+		o.finish(evs, idx)
+	}
+}
+
+func (o *c15pHoldOut) Start(_ pipeline.AnyConfig, params *pipeline.OutputPluginParams) {
+	o.controller = params.Controller
+	o.done = make(chan struct{})
+	go o.ager(25 * time.Millisecond)
+}
+func (o *c15pHoldOut) Stop() {}
+func (o *c15pHoldOut) Out(e *pipeline.Event) {
+	ent := c15pOut{Key: fmt.Sprintf("%d/%s", e.SourceID, e.Root.Dig("stream").AsString()), K: strings.Clone(e.Root.Dig("k").AsString())}
+	if n := e.Root.Dig("log"); n != nil {
+		ent.HasLog, ent.IsStr, ent.Early = true, n.IsString(), strings.Clone(n.AsString())
+	}
+	o.rec.mu.Lock()
+	o.rec.seq++
+	ent.Seq = o.rec.seq
+	o.rec.out = append(o.rec.out, ent)
+	i := len(o.rec.out) - 1
+	o.rec.mu.Unlock()
+	o.mu.Lock()
+	o.queue = append(o.queue, e)
+	o.idx = append(o.idx, i)
+	o.since = append(o.since, time.Now())
+	var ready []*pipeline.Event
+	var readyIdx []int
+	for len(o.queue) > o.hold {
+		ready, readyIdx = append(ready, o.queue[0]), append(readyIdx, o.idx[0])
+		o.queue, o.idx, o.since = o.queue[1:], o.idx[1:], o.since[1:]
+	}
+	o.mu.Unlock()
+	o.finish(ready, readyIdx)
+}
+func (o *c15pHoldOut) finish(evs []*pipeline.Event, idx []int) {
+	for j, e := range evs {
+		late := ""
+		if n := e.Root.Dig("log"); n != nil {
+			late = strings.Clone(n.AsString())
+		}
+		o.rec.mu.Lock()
+		o.rec.out[idx[j]].Log = late
+		o.rec.mu.Unlock()
+		o.controller.Commit(e)
+	}
+}
+func (o *c15pHoldOut) flushAll() {
+	o.mu.Lock()
+	evs, idx := o.queue, o.idx
+	o.queue, o.idx, o.since = nil, nil, nil
+	o.mu.Unlock()
+	o.finish(evs, idx)
+	select {
+	case <-o.done:
+	default:
+		close(o.done)
+	}
 }
 
 type c15pResult struct {
@@ -251,7 +339,7 @@ func c15pRun(sc *c15pScenario) (res *c15pResult) {
 		MaintenanceInterval: time.Second * 5,
 		EventTimeout:        time.Duration(sc.TimeoutMs) * time.Millisecond,
 		Antispam:            pipeline.AntispamSettings{Threshold: pipeline.DefaultAntispamThreshold},
-		AvgEventSize:        256,
+		AvgEventSize:        4096, // the join's run buffer never has to grow
 		MetaCacheSize:       32,
 		StreamField:         "stream",
 		Decoder:             "json",
@@ -270,22 +358,10 @@ func c15pRun(sc *c15pScenario) (res *c15pResult) {
 		PluginStaticInfo:  &pipeline.PluginStaticInfo{Type: "fake"},
 		PluginRuntimeInfo: &pipeline.PluginRuntimeInfo{Plugin: input},
 	})
-	anyOut, _ := devnull.Factory()
-	output := anyOut.(*devnull.Plugin)
+	output := &c15pHoldOut{rec: rec, hold: sc.Hold}
 	p.SetOutput(&pipeline.OutputPluginInfo{
-		PluginStaticInfo:  &pipeline.PluginStaticInfo{Type: "devnull"},
+		PluginStaticInfo:  &pipeline.PluginStaticInfo{Type: "c15hold"},
 		PluginRuntimeInfo: &pipeline.PluginRuntimeInfo{Plugin: output},
-	})
-	output.SetOutFn(func(e *pipeline.Event) {
-		o := c15pOut{Key: fmt.Sprintf("%d/%s", e.SourceID, e.Root.Dig("stream").AsString()), K: strings.Clone(e.Root.Dig("k").AsString())}
-		if n := e.Root.Dig("log"); n != nil {
-			o.HasLog, o.IsStr, o.Log = true, n.IsString(), strings.Clone(n.AsString())
-		}
-		rec.mu.Lock()
-		rec.seq++
-		o.Seq = rec.seq
-		rec.out = append(rec.out, o)
-		rec.mu.Unlock()
 	})
 
 	joinConf := c15pJoinConfig(sc)
@@ -390,6 +466,7 @@ func c15pRun(sc *c15pScenario) (res *c15pResult) {
 	}
 	wg.Wait()
 	time.Sleep(20 * time.Millisecond) // let the last Do calls return
+	output.flushAll()
 
 	stopped := make(chan struct{})
 	go func() { p.Stop(); close(stopped) }()
